@@ -169,7 +169,19 @@ impl<'a> Exec<'a> {
         let var = self.variant;
         Ok(match op {
             "new" => Outcome::Env(Envelope::new(simple(a(0), self.ctx)?)),
-            "build" => Outcome::Env(self.build(a(0))?),
+            // assembling a shape uses only calls that cannot fail on a correct library: a failure is an outcome
+            "build" => match self.build(a(0)) {
+                Ok(e) => Outcome::Env(e),
+                Err(m) => Outcome::Err(format!("other:build: {}", m)),
+            },
+            "decorate" => {
+                // an existing assertion gets an assertion of its own (a note), as a holder annotating it would do
+                let e = reg(regs, a(0))?;
+                let d = self.ctx.digest(a(1)).map_err(|e| e.0)?;
+                let target = e.assertions().into_iter().find(|x| x.digest().data() == &d).ok_or("decorate: no such assertion")?;
+                let decorated = target.add_assertion(known_values::NOTE, "d");
+                res(e.replace_assertion(target, decorated))
+            }
             "new_assertion" => {
                 let (p, o) = (simple(a(0), self.ctx)?, simple(a(1), self.ctx)?);
                 if var % 2 == 0 {
